@@ -10,7 +10,7 @@ import math
 from lib.core import zlit, natlit
 
 MANIFEST = {
-    'text': 'Coq theorems (36, all closed under the global context) over a Gallina model of every stub in mpyc/gmpy.py, for all '
+    'text': 'Coq theorems (39, all closed under the global context) over a Gallina model of every stub in mpyc/gmpy.py, for all '
             'integers: gcdext terminates, returns g = gcd(a,b) = a*s + b*t and obeys the GMP normalisation of its docstring for '
             'ALL a, b (|s| < |b|/(2g), |t| < |a|/(2g) with exactly the documented exceptional cases); invert returns 0 <= y < |m| '
             '(0 < y if |m| > 1) with x*y = 1 mod |m| exactly when gcd(x,m) = 1 and m != 0, else ZeroDivisionError; powmod = x^y mod m '
@@ -18,12 +18,15 @@ MANIFEST = {
             'square; jacobi: ValueError exactly off-domain, terminates, value in {-1,0,1}, 0 iff gcd != 1, depends on x mod y only, '
             'equals Euler\'s criterion for every odd prime y < 400 (by computation, bound in the statement); kronecker = jacobi for '
             'odd y > 0; is_prime: prime x -> True for ALL tapes and round counts (Fermat\'s little theorem and square roots of 1 '
-            'proved here), hence False -> composite; next_prime/prev_prime return the nearest prime relative to a correct primality '
+            'proved here), hence False -> composite; a squaring chain that reaches 1 is rejected by the model and a nontrivial '
+            'square root of 1 / a failing base is a compositeness witness; next_prime/prev_prime return the nearest prime relative to a correct primality '
             'oracle; ratrec: sound, terminates, the reconstruction is unique and is returned exactly when it exists (ValueError '
             'exactly when none exists or the bounds are unsupported); factor_prime_power: sound, and relative to a correct oracle '
             'complete on prime powers, so ValueError only for non-prime-powers. The model is compared exactly with the stubs '
             '(results, exception class, number of random draws on a shared randint tape) on exhaustive ranges and random '
-            '64..512-bit inputs on every run, and the stubs are checked against brute-force definitions.',
+            '64..512-bit inputs on every run, and the stubs are checked against brute-force definitions; Carmichael numbers with '
+            'all prime factors > 53 (which survive the trial division) are each tested on 20+ tapes, also through '
+            'next_prime/prev_prime, and factor_prime_power on q^d for q in {1031, 1033, 2^31-1, 65537, 10007} and every listed d <= 50.',
     'note': 'Trusted: Coq kernel + vm_compute; model Gmpy.v (proofs also in GmpyGcdext.v, GmpyRatrec.v, GmpyFpp.v) tied to gmpy.py '
             'by the exact comparison of this check; built-ins pow/math.isqrt/math.gcd/bit_length/&,|,>> are modelled by pow3 '
             '(square-and-multiply, proved = Z.pow mod)/Z.sqrt/Z.gcd/Z.log2/Z.land.. and compared through the stubs that use them; '
@@ -35,7 +38,8 @@ MANIFEST = {
             'parameter of the model (no prime-gap bound is provable), so factor_prime_power completeness reads "Ok (q,k) or the '
             'model ran out of that search fuel" (all other loop fuels are proved sufficient); the ratrec theorems are about '
             'ratrec_core (explicit N, D); the default-N/D wrapper is covered by correspondence + oracle. In the quick tier the '
-            'model is compared on sub-ranges for next/prev_prime ([-50,1500]) and factor_prime_power ([-5,420] and [1015,1045]) '
+            'model is compared on sub-ranges for next/prev_prime ([-50,1500]) and factor_prime_power ([-5,420], [1015,1045], and '
+            'the q^d up to 320 bits for a sub-selection of (q, d)) '
             'while implementation + oracle cover the full ranges. Oracle for >20-bit primality is an independent Miller-Rabin '
             'with 40 fixed prime bases. Finding F-C25-1 (iroot returned a value for negative x) is repaired by /repo commit 15b125f. '
             'Observation: is_square raises ValueError for negative x with x mod 16 in {0,1,4,9} and returns False for the other '
@@ -642,6 +646,64 @@ def run(ctx):
         ctx.case(['is_prime_n', x, n], nontrivial=n > 0, kind='is_prime few rounds')
     add_list('map (fun p => used (is_prime_n (snd p) (of_list []) (fst p))) @',
              ['(%s, %s)' % (zlit(x), natlit(n)) for x, n in few], rs, 13)
+    # Carmichael numbers all of whose prime factors exceed 53 (they survive the trial division) and with
+    # n = 1 mod 4 (so that the squaring loop runs): every coprime base is a Fermat liar, only the strong test
+    # (a chain that reaches 1 without passing n-1 is a WITNESS) rejects them.  Each is tested on many tapes:
+    # is_prime must say False every time.  Plus composites p(2p-1) and pq with many strong liars.
+    ps = [p for p in range(59, ctx.n(900, 1500)) if o_is_prime_small(p)]
+    carm = []
+    for i, p1 in enumerate(ps):
+        for j in range(i + 1, len(ps)):
+            p2 = ps[j]
+            for p3 in ps[j + 1:]:
+                n = p1 * p2 * p3
+                if (n - 1) % (p1 - 1) == 0 and (n - 1) % (p2 - 1) == 0 and (n - 1) % (p3 - 1) == 0 and n % 4 == 1:
+                    carm.append(n)
+    k = 9
+    while len([c for c in carm if c > 10 ** 9]) < ctx.n(4, 12):     # Chernick (6k+1)(12k+1)(18k+1)
+        if all(o_is_prime(q) for q in (6 * k + 1, 12 * k + 1, 18 * k + 1)) and (6 * k + 1) * (12 * k + 1) * (18 * k + 1) not in carm:
+            carm.append((6 * k + 1) * (12 * k + 1) * (18 * k + 1))
+        k += 1
+    carm = sorted(set(carm))
+    carm = sorted(set(carm[:ctx.n(10, 40)] + carm[-ctx.n(4, 12):] + [3828001, 6189121, 56052361]))
+    liarprone = [p * (2 * p - 1) for p in ps if o_is_prime(2 * p - 1)][:ctx.n(4, 10)] + [59 * 61, 61 * 67, 101 * 103]
+    NT = ctx.n(20, 40)      # tapes per number
+    crs = []
+    for x in carm + liarprone:
+        rs = []
+        for j in range(NT):
+            gmpy.random = T = TapeRandom(fn=lambda i, x=x, j=j: tape_val(seed + j, x, i, MB))
+            r = gmpy.is_prime(x)
+            rs.append((bool(r), T.pos))
+            if r:
+                viol('is_prime accepts composite x=%d' % x, {'f': 'is_prime', 'x': x, 'got': r, 'seed': seed + j,
+                                                           'note': 'Carmichael / liar-prone composite with all prime factors > 53'})
+            ctx.case(['is_prime', x, seed + j], nontrivial=True, kind='is_prime Carmichael/liar-prone')
+        crs.append(rs)
+    add_list('map (fun x => map (fun sd => run_is_prime %s sd x) (zrange %s %s)) @' % (zlit(MB), zlit(seed), natlit(NT)),
+             [zlit(x) for x in carm + liarprone], crs, 6)
+    # ... and through next_prime / prev_prime (which must step over them)
+    rn, rp = [], []
+    for x in carm[:ctx.n(6, 30)]:
+        gmpy.random = T = TapeRandom(fn=tapefn(x - 1, MB))
+        r = call(gmpy.next_prime, x - 1)
+        rn.append((r, T.pos))
+        q = x + 1
+        while not o_is_prime(q):
+            q += 1
+        if r != ('Ok', q):
+            viol('next_prime stops at composite x=%d' % x, {'f': 'next_prime', 'x': x - 1, 'got': r, 'want': q, 'seed': seed})
+        gmpy.random = T = TapeRandom(fn=tapefn(x + 1, MB))
+        r = call(gmpy.prev_prime, x + 1)
+        rp.append((r, T.pos))
+        q = x - 1
+        while not o_is_prime(q):
+            q -= 1
+        if r != ('Ok', q):
+            viol('prev_prime stops at composite x=%d' % x, {'f': 'prev_prime', 'x': x + 1, 'got': r, 'want': q, 'seed': seed})
+        ctx.case(['next_prime', x - 1, seed], nontrivial=True, kind='next/prev_prime around Carmichael')
+    add_list('map (run_next_prime 3000 %s %s) @' % (zlit(MB), zlit(seed)), [zlit(x - 1) for x in carm[:ctx.n(6, 30)]], rn, 3)
+    add_list('map (run_prev_prime 3000 %s %s) @' % (zlit(MB), zlit(seed)), [zlit(x + 1) for x in carm[:ctx.n(6, 30)]], rp, 3)
     # next/prev on large arguments
     big_np = [big(rng.choice(ctx.n([64, 65, 80, 100], [64, 100, 128, 200]))) for _ in range(ctx.n(6, 24))]
     rn, rp = [], []
@@ -702,13 +764,32 @@ def run(ctx):
             cases.append((x, (p, d)))
     rs = []
     for x, want in cases:
-        gmpy.random = T = TapeRandom(fn=tapefn(x, MB))
+        gmpy.random = T = TapeRandom(fn=tapefn(x % 1000003, MB))
         r = call(gmpy.factor_prime_power, x)
         rs.append((r, T.pos))
         if r != (('Ok', want) if want else 'EValue'):
             viol('factor_prime_power big', {'f': 'factor_prime_power', 'x': x, 'got': r, 'want': want, 'seed': seed})
         ctx.case(['factor_prime_power', x, seed], nontrivial=True, kind='factor_prime_power big')
-    add_list('map (run_fpp 100 %s %s) @' % (zlit(MB), zlit(seed)), [zlit(x) for x, _ in cases], rs, 2)
+    add_list('map (fun x => used (factor_prime_power 100 (gen_tape %s %s (x mod 1000003)) x)) @' % (zlit(MB), zlit(seed)),
+             [zlit(x) for x, _ in cases], rs, 2)
+    # genuine prime powers q^d with q > 2^10 and EVERY exponent d (repeated odd prime factors of d: 9, 25, 27, 45, 49, ..)
+    DS = ctx.n([1, 2, 3, 4, 5, 6, 8, 9, 10, 12, 15, 16, 18, 25, 27, 32, 36, 45, 49, 50], list(range(1, 51)))
+    ppow = [(q, d) for q in (1031, 1033, 2 ** 31 - 1, 65537, 10007) for d in DS]
+    rs = []
+    for q, d in ppow:
+        x = q ** d
+        gmpy.random = T = TapeRandom(fn=tapefn(x % 1000003, MB))
+        r = call(gmpy.factor_prime_power, x)
+        rs.append((r, T.pos))
+        if r != ('Ok', (q, d)):
+            viol('factor_prime_power prime-power q=%d d=%d' % (q, d), {'f': 'factor_prime_power', 'x': x, 'q': q, 'd': d,
+                                                                       'got': r, 'want': [q, d], 'seed': seed})
+        ctx.case(['factor_prime_power', x, seed], nontrivial=True, kind='factor_prime_power q^d, q > 2^10')
+    # the model is evaluated where it is affordable (its integer roots are slow on long operands: up to 320 bits in the quick tier, 1000 bits in the thorough one)
+    sel = [i for i, (q, d) in enumerate(ppow) if q.bit_length() * d <= ctx.n(320, 1000)
+           and (ctx.tier == 'thorough' or q == 1031 or d in (1, 2, 3, 9, 18, 25, 27, 45, 49))]
+    add_list('map (fun x => used (factor_prime_power 100 (gen_tape %s %s (x mod 1000003)) x)) @' % (zlit(MB), zlit(seed)),
+             [zlit(ppow[i][0] ** ppow[i][1]) for i in sel], [rs[i] for i in sel], 4)
     gmpy.random = _random
 
     # ---------------- ratrec
